@@ -229,7 +229,24 @@ def _show(f):
     return " ".join("%+d*%s" % (v, ("d%d.%s" % k) if k != 1 else "1") for k, v in sorted(f.items(), key=repr)) or "0"
 
 
+class _Advisory:
+    """RF-borrow describes one way of writing a borrow; for the routines RF2-diff decodes over their whole domain a shape it does not
+    recognise (the step to the month before moved into a helper, say) is no verdict: recorded as a note, decided by the decode"""
+    def __init__(self, R, decoded):
+        self._R, self._decoded = R, decoded
+
+    def __getattr__(self, nm):
+        return getattr(self._R, nm)
+
+    def finding(self, rule, fn, site, msg, *a, **k):
+        if getattr(fn, "name", None) in self._decoded:
+            self._R.notes.append("%s (advisory, %s): %s" % (rule, fn.name, msg[:200]))
+        else:
+            self._R.finding(rule, fn, site, msg, *a, **k)
+
+
 def check_borrow(P, R, tu):
+    R = _Advisory(R, {"__ymd_diff", "__yd_diff", "__ywd_diff"})
     rule = "RF-borrow"
     # ymd / ymcw: month borrow
     for name, nborrow in (("__ymd_diff", 2), ("__ymcw_diff", 1)):
@@ -270,6 +287,11 @@ def check_borrow(P, R, tu):
                         and len(ydec) == 1 and args[0] is not None and args[0].get("d") == _u(ydec[0]["c"][0]).get("d")):
                     ok = False
                     detail = "a borrow does not add the length of the month it just stepped back to (wrap %s)" % wrap
+        if not adds:
+            # the anchor of the clause (`days += __get_mdays(..)`) is not in this routine (moved into a helper, or written another
+            # way): the clause does not apply as written -- undecided, not a violation
+            R.notes.append("%s not applied to %s: no `+= __get_mdays(..)` on the day counter in the routine itself (%s)" % (rule, name, detail))
+            continue
         if ok:
             R.ob(rule, "%s: each of its %d borrows steps to the month before, adds that month's length, takes one month off" % (name, nborrow), True)
         else:
